@@ -296,6 +296,9 @@ Definition parse_ref (s : list N) : option (list N * nat) :=
     else None
   end.
 
+(** list reversal in linear time ([List.rev] is quadratic) *)
+Definition lrev (l : list N) : list N := rev_append l [].
+
 (** * roxmltree's TextBuffer; the buffer is kept reversed (head = last byte pushed) *)
 Definition push_from_text (rbuf : list N) (c : N) (at_end : bool) : list N :=
   match rbuf with
@@ -316,7 +319,7 @@ Definition push_from_attr (rbuf : list N) (c : N) (next : option N) : list N :=
     [as_is] is roxmltree's [is_as_is] *)
 Fixpoint text_loop (s : list N) (skip : nat) (rbuf : list N) (as_is : bool) : option (list N) :=
   match s with
-  | [] => Some (rev rbuf)
+  | [] => Some (lrev rbuf)
   | b :: r =>
     match skip with
     | S k => text_loop r k rbuf as_is
@@ -335,7 +338,7 @@ Definition process_text (t : list N) : option (list N) := text_loop t O [] false
 (** [process_cdata] *)
 Fixpoint cdata_loop (s : list N) (rbuf : list N) : list N :=
   match s with
-  | [] => rev rbuf
+  | [] => lrev rbuf
   | b :: r => cdata_loop r (push_from_text rbuf b (is_nil r))
   end.
 Definition process_cdata (t : list N) : list N := cdata_loop t [].
@@ -343,7 +346,7 @@ Definition process_cdata (t : list N) : list N := cdata_loop t [].
 (** [normalize_attribute] *)
 Fixpoint attr_loop (s : list N) (skip : nat) (rbuf : list N) : option (list N) :=
   match s with
-  | [] => Some (rev rbuf)
+  | [] => Some (lrev rbuf)
   | b :: r =>
     match skip with
     | S k => attr_loop r k rbuf
@@ -361,7 +364,7 @@ Definition normalize_attr (v : list N) : option (list N) := attr_loop v O [].
 (** * Comments, processing instructions, the XML declaration *)
 
 Definition ends_with_dash (t : list N) : bool :=
-  match rev t with 45 :: _ => true | _ => false end.
+  match lrev t with 45 :: _ => true | _ => false end.
 
 (** after "<!--" *)
 Definition parse_comment (s : list N) : option (xnode * list N) :=
